@@ -322,8 +322,22 @@ def parser_case(ctx, rng, table):
         ctx.tie_broken("correspondence PySM.parse_indent vs CPython ast.parse (perturbed indentation)", {"lines": lines, "model": mp, "cpython": cp})
 
 
+def reserved_names():
+    """py_reserved_names of Gen/PyTmpl.v (what translator/pytmpl.py computed from the template on this run)."""
+    try:
+        text = open(os.path.join(VERIF, "coq", "theories", "Gen", "PyTmpl.v")).read()
+    except OSError:
+        return []
+    m = re.search(r"py_reserved_names : list string := \[(.*?)\]\.", text)
+    return ["".join(chr(int(x)) for x in b.split(";") if x) for b in re.findall(r"bs \[([0-9;]*)\]", m.group(1))] if m else []
+
+
 def gen_case(rng):
-    table = smlib.random_table(rng)
+    res = set(reserved_names())
+    while True:
+        table = smlib.random_table(rng)
+        if not (set(sum(smlib.names(table), [])) & res):      # inside the theorem's name domain (py_names_ok)
+            break
     spec = smlib.random_iface_spec(rng, table, "py", {"StateMachineThread": "0"}, extra_events=rng.choice([0, 0, 1]))
     evnames = smlib.names(table)[1] + [nm for nm, _m in spec["structs"] if nm not in smlib.names(table)[1]]
     evs = []
@@ -350,6 +364,19 @@ def run(ctx):
         ctx.count("known_probe")
         if fail:
             ctx.violation(fail, {"table": table, "iface": nothread, "events": evs, "bits": [True] * 4, "finding_key": key})
+    # every reserved bare name of the template (Gen/PyTmpl.v) that a table could use, probed as an event with one parameter:
+    # outside the theorem's domain by py_names_ok; what happens on the real code is reported (known for Enum, EventStartup)
+    for nm in reserved_names():
+        if not re.fullmatch(r"[A-Z][A-Za-z0-9]*", nm):
+            continue
+        table = [["S", nm, "T", "OnA", "None"]]
+        spec = {"structs": [[nm, [["m0", "int", None]]]], "usertags": {"StateMachineThread": "0"}}
+        fail, _src = observe(ctx, table, spec, [[nm, [7]]], [])
+        ctx.case(("reserved-name-probe", nm))
+        ctx.count("reserved_name_probe")
+        if fail:
+            ctx.violation("event named %s (a bare name of the template's module): %s" % (nm, fail),
+                          {"table": table, "iface": spec, "events": [[nm, [7]]], "bits": [], "finding_key": "py-event-named-" + nm})
     n = ctx.budget(500, 7000)
     for i in range(n):
         table, spec, evs, bits = gen_case(ctx.rng)
